@@ -59,6 +59,14 @@ Theorem C08_no_needless_hold : forall c est0 evs, ns_wf c ->
 Proof. exact ns_no_needless_hold. Qed.
 Print Assumptions C08_no_needless_hold.
 
+(* none lost, the progress side: when every in-flight exchange of an established session has
+   finished (acknowledged, reset, given up, cancelled) nothing is left waiting *)
+Theorem C08_drained_when_idle : forall c est0 evs, ns_wf c -> 1 <= ns_nstart c ->
+  let s := ns_run c (ns_init est0) evs in
+  ns_est s = true -> ns_sq s = [] -> ns_dq s = [].
+Proof. exact ns_drained_when_idle. Qed.
+Print Assumptions C08_drained_when_idle.
+
 (* a NON submitted on an established session is transmitted inside coap_send (any state) *)
 Theorem C08_non_not_delayed : forall c s m,
   ns_open s = true -> ns_est s = true -> ns_con m = false ->
